@@ -99,7 +99,8 @@ SPEC = dict(
          'walk stream = states with one defect per parser branch (leaf value short / no account ref / empty account cell, fork extra cut, extra-currency value cut, '
          'ref group short / Grams cut / master_ref short / dict bit without ref, custom junk / missing / no bit, wrong tags), each pruned away (accept) and left in (reject), '
          'spec-encoded Account / McStateExtra cells from the C16 codecs. distinct = distinct (dag, op, '
-         'hash); non-trivial = proof with at least one pruned branch or a negative case',
+         'hash); shard stream = check_shard_proof (the real function, TL-B deserialisers stubbed) on honest and broken proof pairs x every stub behaviour; '
+         'non-trivial = proof with at least one pruned branch or a negative case',
     trusted_base=['harness/translate/pyfunc.py + prooffull.py: check_proof / check_block_header_proof / check_account_proof regenerated as Lean functions (declared reading of '
                   'Cell objects; Cell.from_boc and the TL-B deserialiser calls are parameters); Model/Proof.lean is proved equal to them (after fix commits 56bdc07, 3b51ac3, 83e0e94, 67bd38d); '
                   'check_shard_proof and check_account_proof(.., return_account_descr=True) are regenerated too (c11_src_shard_full, c11_src_account_descr_mode); the TL-B deserialisers they call are parameters',
@@ -1520,6 +1521,10 @@ def src_fn_search(ctx):
     if not idx:
         return False
     ctx.src_account_first = ctx.src_account_first or any(cases[i][0].startswith('chkacct') for i in idx)
+    if any(cases[i][0].startswith('chkshard') for i in idx):
+        shard_stream(ctx, prooffull.Recorder(20240915).rng)          # check_shard_proof differs from the model: its oracle first
+        if len(ctx.failures) > n0:
+            return True
     # the differing requests are outputs of the deterministic generators below: run those families (all of them, the differing
     # requests are among them) through the oracle
     rec_rng = prooffull.Recorder(20240915).rng
@@ -1573,17 +1578,74 @@ def run(ctx):
     rng = ctx.rng
     if ctx.search and src_search(ctx):
         return
-    streams = [generic_streams, account_stream, extra_stream, walk_stream]
+    streams = [generic_streams, account_stream, shard_stream, extra_stream, walk_stream]
     if ctx.search and getattr(ctx, 'src_account_first', False):
-        streams = [account_stream, walk_stream, generic_streams, extra_stream]     # a test of check_account_proof differs: look there first
+        streams = [account_stream, shard_stream, walk_stream, generic_streams, extra_stream]     # a test of check_account_proof differs: look there first
     for stream in streams:
         stream(ctx, rng)
         if ctx.search and ctx.failures:
             return                   # search mode only needs one concrete failing input
 
 
+# ----------------------------------------------------------------------------- check_shard_proof (the real function, TL-B deserialisers stubbed)
+
+SHARD_PAIR_BROKEN = ('sound:notproof', 'sound:roots', 'sound:wronghash', 'account:forged-statehash')
+
+
+def shard_expect(kind, same, mc, info, custom, get, leaves):
+    """the verdict known by construction for a proof pair of an account case of this kind and the stub behaviour (prooffull.SHARD_GRID)"""
+    if same:
+        return 'none'                  # blk == shrd_blk: nothing to prove
+    if not mc:
+        return 'rej'                   # not a masterchain block
+    if kind in SHARD_PAIR_BROKEN:
+        return 'rej'                   # the proof pair itself is broken (wrapper not a Merkle proof, wrong roots, wrong / forged hash)
+    if kind == 'complete:account':     # an honest pair: accepted iff the stubs agree and a leaf carries the shard block's root hash
+        return 'descr' if (info, custom, get) == (0, 0, 0) and 1 in leaves else 'rej'
+    return None
+
+
+def run_shard_case(ctx, nodes, roots, bh, kind, params, expect=None):
+    same, mc, info, custom, get, leaves = params
+    got = prooffull.shard_lib_answer(nodes, roots, bh, same, mc, info, custom, get, leaves)
+    exp = expect if expect is not None else shard_expect(kind, same, mc, info, custom, get, leaves)
+    ctx.case(('shard', kind, tuple(nodes), tuple(roots), bh, same, mc, info, custom, get, tuple(leaves)),
+             sample={'op': 'check_shard_proof', 'cells': len(nodes), 'key': kind, 'verdict': got})
+    ctx.count(f'shard:{got}')
+    if exp is not None and got != exp:
+        ctx.fail(f'shard:{kind}', 'check_shard_proof (TL-B deserialisers stubbed) on the proof pair of this account case: '
+                 + ('accepts a pair it must reject' if exp == 'rej' else 'does not return what it must'),
+                 {'op': 'shard', 'dag': jnodes(nodes), 'roots': list(roots), 'blk_hash': bh.hex(), 'kind': kind, 'params': [same, mc, info, custom, get, list(leaves)],
+                  'expect': exp}, got, exp)
+    return got
+
+
+def shard_stream(ctx, rng):
+    """check_shard_proof on the proof pairs of a short account stream (honest pairs and pairs broken at the proof level), every stub
+    behaviour of prooffull.SHARD_GRID: equal ids, non-masterchain block, header mismatch / raise, custom None, workchain absent, leaves
+    None / matching / not matching in every position"""
+    rec = prooffull.Recorder(rng.randrange(1 << 30), scale=12)
+    account_stream(rec, rec.rng)
+    seen = {}
+    for nodes, roots, bh, kind in rec.acct_cases:
+        if kind != 'complete:account' and kind not in SHARD_PAIR_BROKEN:
+            continue
+        if seen.get(kind, 0) >= (3 if kind == 'complete:account' else 1):
+            continue
+        seen[kind] = seen.get(kind, 0) + 1
+        for params in prooffull.SHARD_GRID:
+            run_shard_case(ctx, nodes, roots, bh, kind, params)
+        if ctx.search and ctx.failures:
+            return
+
+
 def replay(ctx, payload):
     inp = payload.get('input') or {}
+    if inp.get('op') == 'shard':
+        pr = inp['params']
+        run_shard_case(ctx, unj(inp['dag']), inp['roots'], bytes.fromhex(inp['blk_hash']), inp.get('kind', 'replay'),
+                       (pr[0], pr[1], pr[2], pr[3], pr[4], list(pr[5])), expect=inp.get('expect'))
+        return
     if inp.get('op') == 'proof-boc':
         from pytoniq_core.boc.cell import Cell
         ctx.case(('stored-hash-forgery', inp['boc']))
